@@ -12,6 +12,8 @@ CHECKS = {
     'C03': dict(level='exploration', runs=_e1v('C03'), percase=5, deadline=dict(quick=150, thorough=1500)),
     'C04': dict(level='exploration', runs=_e1('C04') + _e1('C04x', 'h_e1x'), percase=5, deadline=dict(quick=200, thorough=1500)),
     'C05': dict(level='exploration', runs=_e1('C05', 'h_e1x'), percase=5, deadline=dict(quick=150, thorough=1500)),
+    'C10': dict(level='exploration', runs=_e1v('C10', 'h_k', ('ref', 'i64', 'asan')), percase=10, deadline=dict(quick=150, thorough=1500)),
+    'C11': dict(level='exploration', runs=_e1v('C11', 'h_k', ('ref', 'asan')), percase=5, deadline=dict(quick=150, thorough=1500)),
     'C12': dict(level='exploration', runs=_e1('C12', 'h_e1x'), percase=5, deadline=dict(quick=150, thorough=1500)),
     'C13': dict(level='exploration', runs=_e1('C13', 'h_e1x'), percase=5, deadline=dict(quick=150, thorough=1500)),
     'C06': dict(level='model_checking', runs=_e1('C06', 'h_e3'), percase=20, deadline=dict(quick=150, thorough=1500),
@@ -67,3 +69,10 @@ META.update({
 META['C06'] = dict(engine='E3 history explorer', design_ref='5/C06', technique='explicit-state breadth-first search over operation histories of the real xgssvx session (state = canonical hash of the carried objects), to a fixpoint per configuration',
     text='For every configuration (pattern, type, tuning, ordering, Equil, refinement, storage model, threshold) the reachable state graph over the 18-event alphabet {DOFACT, SamePattern, SamePattern_SameRowPerm} x {base values, tiny perturbation, unrelated values, reused pivot made exactly zero, rows rescaled} + FACTORED x {N,T,C} is explored to a fixpoint; every transition is a real driver call judged by the structure, LU-identity, multiplier-bound, scaling and solution oracles of C02/C03/C05 with respect to that call\'s matrix; FACTORED must leave the state hash unchanged; DOFACT(v) after any history must give bit-identical factors to DOFACT(v) from the initial state.',
     note=_E1_NOTE + ' State canonicalisation: addresses and timings excluded, everything else that a later call can read is hashed, so merged states have the same futures. Known findings F10/F11 apply as in C05.')
+
+META['C10'] = dict(engine='E1 small-scope enumerator', design_ref='5/C10', technique='bounded exhaustive enumeration of sparsity patterns x ordering methods with a definition-level reference elimination tree',
+    text='All patterns of order <=4, all patterns of nine rectangular shapes, deviation-1 neighbourhoods of 6x6/8x8 bases, large structured patterns (n=101..137 with dense rows/columns, empty rows/columns, columns living only in dense rows, so that the dense-row/column branches of COLAMD and MMD are inside the space), MY_PERMC with all 4! orders: perm_c is a bijection independent of the values; the permuted view lists exactly A\'s columns; the returned etree equals the column elimination tree of A*Pc computed from its definition; parents exceed children; subtrees are consecutive unless SymmetricMode; the final ordering is a postorder relabelling of the caller\'s tree; Fact!=DOFACT leaves perm_c/etree untouched.',
+    note='Bounded by the listed pattern families; METIS orderings are not built here. Runs on 32- and 64-bit index builds and under ASan/UBSan.')
+META['C11'] = dict(engine='E1 small-scope enumerator', design_ref='5/C11', technique='bounded exhaustive enumeration of patterns x magnitude alphabets (subnormal .. near overflow) with definition-level oracle',
+    text='All patterns of seven small shapes x 12 magnitude-assignment schemes over a 9-level alphabet (smallest subnormal, sfmin/2, sfmin, tiny, 1, 3, huge, 1/(4 sfmin), near overflow) with one extreme entry at every position x 4 types: info names the first all-zero row/column; R, C positive, finite, in the safe range; R_i*max|a_i.| = 1 and C_j*max|r_i a_ij| = 1 to 4 eps unless clamped; rowcnd/colcnd/amax equal their definitions; xlaqgs follows the threshold rule and multiplies every stored entry by exactly the selected factors (bitwise, any association order).',
+    note='Complex magnitudes are |re|+|im| as in the library. Known findings F19 (underflow makes a non-zero column look empty) and F20 (R*C overflow in xlaqgs) are reported as KNOWN-FINDING.')
